@@ -36,8 +36,12 @@ func cmdSig(args []string) {
 	}))
 	b := hx.NewBatch(*work)
 	b.WriteGoMod()
-	var src strings.Builder
-	src.WriteString("package p\n\ntype S struct{ A int }\ntype S2 struct{ A int }\ntype T struct{ A int }\ntype X struct{ V int }\ntype Y struct{ V int }\n")
+	var srcP, srcE strings.Builder
+	types := "type S struct{ A int }\ntype S2 struct{ A int }\ntype T struct{ A int }\ntype X struct{ V int }\ntype Y struct{ V int }\n"
+	srcP.WriteString("package p\n\n" + types)
+	// package pe declares its own type named error: there `error` is not the built-in error
+	srcE.WriteString("package pe\n\n" + types + "type error struct{ Code int }\n")
+	pkgOf := make([]string, len(scens))
 	type call struct {
 		Args []any `json:"args"`
 		Dump []int `json:"dump"`
@@ -45,6 +49,13 @@ func cmdSig(args []string) {
 	lines := make([]map[string]any, len(scens))
 	wants := make([][]int, len(scens))
 	for i, s := range scens {
+		src := &srcP
+		pkgOf[i] = "p"
+		for _, r := range s.Results {
+			if r == "localerror" {
+				src, pkgOf[i] = &srcE, "pe"
+			}
+		}
 		var ps []string
 		var av []any
 		dump := []int{}
@@ -82,25 +93,48 @@ func cmdSig(args []string) {
 			}
 		}
 		wants[i] = want
+		rs := make([]string, len(s.Results))
+		for k, r := range s.Results {
+			rs[k] = r
+			if r == "localerror" {
+				rs[k] = "error"
+			}
+		}
 		res := ""
-		switch len(s.Results) {
+		switch len(rs) {
 		case 0:
 		case 1:
-			res = " " + s.Results[0]
+			res = " " + rs[0]
 		default:
-			res = " (" + strings.Join(s.Results, ", ") + ")"
+			res = " (" + strings.Join(rs, ", ") + ")"
 		}
-		fmt.Fprintf(&src, "\n// goverter:converter\n// goverter:arg:context:regex ^rx\n// goverter:output:file ../gen/c%d.go\n// goverter:output:package %s/gen\ntype C%d interface {\n%s\tConv(%s)%s\n}\n", i, b.Mod, i, doc, strings.Join(ps, ", "), res)
+		if s.Use == "extend" {
+			// the custom function F<i> under test, a sibling in the same file declaring other context names, and a converter using F<i>
+			fdoc := strings.ReplaceAll(doc, "\t", "")
+			body := "panic(0)"
+			fmt.Fprintf(src, "\n%sfunc F%d(%s)%s { %s }\n\n// goverter:context source\n// goverter:context other\nfunc G%d(v int, source X, other Y) string { return \"\" }\n", fdoc, i, strings.Join(ps, ", "), res, body, i)
+			fmt.Fprintf(src, "\n// goverter:converter\n// goverter:extend F%d\n// goverter:output:file ../gen/c%d.go\n// goverter:output:package %s/gen\ntype C%d interface {\n\t// goverter:context ctx\n\tConv(source S, ctx X) (T, error)\n}\n", i, i, b.Mod, i)
+			lines[i] = map[string]any{"ins": []any{}, "lit": true, "calls": []call{}}
+			wants[i] = []int{}
+			continue
+		}
+		fmt.Fprintf(src, "\n// goverter:converter\n// goverter:arg:context:regex ^rx\n// goverter:output:file ../gen/c%d.go\n// goverter:output:package %s/gen\ntype C%d interface {\n%s\tConv(%s)%s\n}\n", i, b.Mod, i, doc, strings.Join(ps, ", "), res)
 		lines[i] = map[string]any{"ins": []any{}, "lit": true, "calls": []call{{Args: av, Dump: dump}}}
-		b.API[i] = fmt.Sprintf("import (\n\tp \"%s/p\"\n\tgen \"%s/gen\"\n)\n\nvar _ p.C%d = &gen.C%dImpl{}\n", b.Mod, b.Mod, i, i)
+		b.API[i] = fmt.Sprintf("import (\n\tp \"%s/%s\"\n\tgen \"%s/gen\"\n)\n\nvar _ p.C%d = &gen.C%dImpl{}\n", b.Mod, pkgOf[i], b.Mod, i, i)
 	}
-	hx.WriteTree(*work, map[string]string{"p/in.go": src.String()})
+	hx.WriteTree(*work, map[string]string{"p/in.go": srcP.String(), "pe/in.go": srcE.String()})
 	t0 := time.Now()
-	outs, err := hx.GenerateEach(hx.GenConfig(*work, []string{"./p"}, nil))
+	all, err := hx.GenerateEach(hx.GenConfig(*work, []string{"./p", "./pe"}, nil))
 	hx.Must(err)
 	b.Timing["gen"] = time.Since(t0)
-	if len(outs) != len(scens) {
+	if len(all) != len(scens) {
 		panic("result count mismatch")
+	}
+	outs := make([]hx.Outcome, len(scens))
+	for _, o := range all {
+		var i int
+		fmt.Sscanf(o.Name, "C%d", &i)
+		outs[i] = o
 	}
 	drvScen := filepath.Join(*work, "drv.ndjson")
 	w, err := hx.NewNDWriter(drvScen)
